@@ -15,7 +15,33 @@ TRUST = (
     'Verdict is "held on the executions observed", never a proof.'
 )
 
+SIM = (' Histories run the real schedule/dag/farm/message/FSM code on a virtual reactor with fake workers that '
+       'follow the wire protocol of worker.cluster.execute; the ledger is built from boundary observations only.')
+
 CHECKS = {
+    'C01': dict(
+        category='exploration',
+        technique='runtime monitor at next_job_batch return + task hand-over, oracle = reference ancestor closure x ledger of in-flight units, random event histories on the real scheduler/farm',
+        text=(
+            'Thousands of random histories (requests, new data, failures, re-requests of executing units, replies in '
+            'any order) over generated graphs; at the instant of every release the reference ancestors must be idle '
+            'for the target (node todo and the in-flight ledger). Schedules here are orders of reactor callbacks, '
+            'which the harness produces exactly, so sampled exploration of histories is the reachable level.'
+        ),
+        design='DESIGN.md §2 C01',
+        note=TRUST + SIM + ' Known finding C01/purge-forgets-executing-descendant is reported, not suppressed silently.',
+    ),
+    'C03': dict(
+        category='exploration',
+        technique='runtime ledger monitor (released/queued/handed/replied/applied per unit) with conservation, exactly-once and crew-view invariants after every event',
+        text=(
+            'Same simulated farm, biased to re-request in-flight units with few workers. Invariants: <=1 execution '
+            'per unit in flight, each task message on one transport, released = handed + queued, each reply applied '
+            'exactly once (complete, one journal entry, update xor purge), crew()[busy] == units on workers.'
+        ),
+        design='DESIGN.md §2 C03',
+        note=TRUST + SIM + ' One reply per task message. Known finding C03/purge-forgets-executing-descendant.',
+    ),
     'C09': dict(
         category='exploration',
         technique='runtime monitor: reference-graph oracle over generated engines fed to the real dag.Construct',
